@@ -74,6 +74,9 @@ def _decode(assumed: dict, rule: str):
             facts[f"eq:{k[-1]}"] = v
         elif kind == "truth":
             facts[f"truth:{k[1]}"] = v
+        elif isinstance(kind, str) and kind.startswith("re."):
+            # a pattern applied directly to an abstract cell: recorded (R3 requires names to go through the XML-name validator)
+            facts.setdefault("regex_guards", []).append((k[1] if len(k) > 1 else "?", v))
         else:
             raise AnalysisError(rule, f"unrecognised guard kind in abstract evaluation: {k!r}")
     return facts
@@ -340,8 +343,10 @@ def run(ctx):
               necessary="an invalid dataset / unknown column / second entity row would be converted instead of rejected")
     it = ctx.interp("C19.R3", hooks={"fnname:is_xml_tag": _xml_tag_hook})
     seen = set()
+    adhoc = set()
     for dec, out, eff, assumed in explore(it, lambda: it.call_function(ep, [[_row(False, False, False, True)]], {}, None, ep.node)):
         f = _decode(assumed, "C19.R3")
+        adhoc |= {p_ for p_, _v in f.get("regex_guards", [])}
         pre, dot, bad = bool(f.get("startswith:'__'")), bool(f.get("in:'.'")), f.get("xmltag:DATASET") is False
         desc = f"prefix={pre} period={dot} not_xml_name={bad}"
         if desc in seen:
@@ -351,6 +356,8 @@ def run(ctx):
             r3.check(out[0] == "raise" and "PyXFormError" in out[1].mro, f"dataset[{desc}]", "invalid dataset name is rejected", ep.loc())
         else:
             r3.check(out[0] == "return", f"dataset[{desc}]", "valid dataset name is accepted", ep.loc())
+    r3.check(not adhoc, "dataset.validator", "the list name is judged by the XML-name validator (is_xml_tag), not by a pattern of its own", ep.loc(),
+             why_fail=f"own pattern(s) {sorted(adhoc)}: what they accept and what XML accepts differ (non-ASCII letters, colons)")
     if len(seen) < 4:
         r3.fail("dataset.guards", f"dataset name is tested for reserved prefix, period and XML-name ({len(seen)} guard outcomes seen, expected 4)", ep.loc())
     # unknown column
